@@ -105,6 +105,16 @@ Example C11_families_nonempty :
   guard_int (s "0XBe9ul") (s ";") = true /\ guard_float (s "12.25e-12L") = true.
 Proof. vm_compute. repeat split. Qed.
 
+(* the tool's suffix tables are exactly the suffix grammar of the property text (written independently in Spec/CConst.v):
+   every spelling [uU]?(l|L|ll|LL|z|Z|wb|WB|i64|I64)? in either order is in the table and nothing else is; f F l L d D are
+   float suffixes.  A table edit that drops or invents a spelling breaks this. *)
+Theorem C11_suffix_tables_are_the_grammar :
+  forallb (fun x => str_in x integer_suffixes) spec_int_suffixes = true /\
+  forallb (fun x => str_in x spec_int_suffixes) integer_suffixes = true /\
+  forallb (fun x => str_in x float_suffixes) spec_float_suffixes = true.
+Proof. exact integer_suffix_table_is_the_grammar. Qed.
+Print Assumptions C11_suffix_tables_are_the_grammar.
+
 (* ---- UNBOUNDED accept theorems for integer constants (Proofs/CConstUnbounded.v): all Unicode class oracles uw ud,
    digit strings of ANY length, every suffix of the source's table, every continuation that starts with a delimiter
    (`delim`: end of input, or an ASCII character that is no letter, digit, underscore or dot).
